@@ -216,6 +216,10 @@ func ensureFamily() {
 	if err != nil {
 		die(2, "building the generator from /repo failed (exit 2: build trouble): %v\n%s", err, out)
 	}
+	// hand-written custom typeref implementations live beside the generated code and must be there first
+	if out, err := run(scratch, goEnv, "cp", "-r", filepath.Join(verifDir, "family", "custom")+"/.", filepath.Join(scratch, "fam")); err != nil {
+		die(2, "copying custom typeref sources: %v %s", err, out)
+	}
 	out, err = run(scratch, goEnv, gd, filepath.Join(verifDir, "family", "family.manifest.json"), filepath.Join(scratch, "fam"))
 	if err != nil {
 		die(2, "generating the binding family failed (exit 2; C12's check reports generator failures as violations): %v\n%s", err, lastLines(out, 30))
